@@ -92,7 +92,8 @@ class Ctx:
 
     def budget(self, quick, thorough):
         # quick-tier multipliers measured so that each quick check takes roughly 20-40 s of harness time
-        n = quick * QUICK_SCALE.get(self.prop, 1) if self.tier == "quick" else thorough
+        q = quick * QUICK_SCALE.get(self.prop, 1)
+        n = q if self.tier == "quick" else max(thorough, 5 * q)
         if self.search_mode:
             n *= 10
         return n
